@@ -1529,7 +1529,9 @@ func (vm *VM) run() (Addr, bool) {
 				vm.cases = vm.cases[:0]
 			}
 			if c != 0 {
-				vm.setFromReflectValue(c, v)
+				// An array or a struct is copied into an addressable value: the
+				// register can be a variable, or a parameter, that is modified.
+				vm.setFromReflectValue(c, iterationValue(v))
 			}
 			if b != 0 {
 				vm.setBool(b, vm.ok)
